@@ -127,12 +127,28 @@ def run_property(a, ck):
                 replay_stage = json.load(open(a.replay)).get("harness")
             except Exception:  # noqa
                 replay_stage = None
+        # stages marked "background" (long, mostly sleeping) run while the others do
+        import threading
+        bg = {}
         for st in stages:
+            if st.get("background") and not (replay_stage and st["harness"] != replay_stage):
+                n = a.n or st["n"][tier]
+                box = {}
+                th = threading.Thread(target=lambda st=st, n=n, box=box: box.update(
+                    r=run_harness(ck, prop, st["harness"], n, seed, tier, rundir, replay=a.replay)))
+                th.start()
+                bg[st["harness"]] = (th, box)
+        for st in sorted(stages, key=lambda st: 1 if st.get("background") else 0):
             if replay_stage and st["harness"] != replay_stage:
                 continue
             n = a.n or st["n"][tier]
             try:
-                rc, o, cases = run_harness(ck, prop, st["harness"], n, seed, tier, rundir, replay=a.replay)
+                if st["harness"] in bg:
+                    th, box = bg[st["harness"]]
+                    th.join()
+                    rc, o, cases = box["r"]
+                else:
+                    rc, o, cases = run_harness(ck, prop, st["harness"], n, seed, tier, rundir, replay=a.replay)
                 if rc != 0:
                     corr_errors.append({"what": "harness %s exited %d" % (st["harness"], rc), "log": o[-3000:]})
                 mod = st["corr"]
@@ -150,6 +166,7 @@ def run_property(a, ck):
                 corr_errors.append({"what": "stage %s failed" % st["harness"], "log": str(e)[-3000:]})
 
     spec_fail, mismatch, known_hits, spec_model_fail = [], [], [], []
+    src_mismatch, src_spec_fail = [], []
     for c in cases_all:
         for t in c.get("tags") or []:
             tags[t] += 1
@@ -167,6 +184,10 @@ def run_property(a, ck):
             mismatch.append(c)
         if code & 4 and not (fk and fk in known_keys):
             spec_model_fail.append(c)
+        if code & 8 and not (fk and fk in known_keys):
+            src_mismatch.append(c)
+        if code & 16 and not (fk and fk in known_keys):
+            src_spec_fail.append(c)
 
     k = 0
     for c in spec_fail[:3]:
@@ -179,6 +200,29 @@ def run_property(a, ck):
             "replay_cmd": "./check %s --replay <this file>" % prop, "harness": st["harness"], "seed": seed})
         violations.append(("spec", p, ""))
         k += 1
+    # a failing input found on the model side: the source as translated now violates the spec predicate
+    if not spec_fail:
+        for c in src_spec_fail[:2]:
+            st = c["_stage"]
+            ex = ck.explain_case(prop, c, rundir, st["corr"])
+            p = write_replay(ck, prop, seed, k, {
+                "property": prop, "kind": "spec-violated-on-translated-source-trace",
+                "clause": "the executable spec predicate of %s is false on the trace that the Gallina translation of /repo's current source (coq/translated) produces for this input" % st["corr"],
+                "input": c["input"], "impl": c["impl"], "model_explain": ex, "coq_case": c["coq"],
+                "replay_cmd": "./check %s --replay <this file>" % prop, "harness": st["harness"], "seed": seed})
+            violations.append(("srcspec", p, ""))
+            k += 1
+    if not spec_fail and not src_spec_fail:
+        for c in src_mismatch[:1]:
+            st = c["_stage"]
+            ex = ck.explain_case(prop, c, rundir, st["corr"])
+            p = write_replay(ck, prop, seed, k, {
+                "property": prop, "kind": "source-tie-broken",
+                "correspondence": "%s: the Gallina translation of /repo's current source (coq/translated) departs from the hand-written model on this input; the spec predicate still holds on its trace" % st["corr"],
+                "input": c["input"], "impl": c["impl"], "model_explain": ex, "coq_case": c["coq"],
+                "replay_cmd": "./check %s --replay <this file>" % prop, "harness": st["harness"], "seed": seed})
+            violations.append(("srctie", p, "no-failing-input-found"))
+            k += 1
     if not spec_fail:
         for c in mismatch[:2]:
             st = c["_stage"]
@@ -246,6 +290,7 @@ def run_property(a, ck):
         "rule": P["rule"], "samples": samples or [{"note": "no correspondence cases in this run"}],
         "input_distribution": dict(tags.most_common(60)),
         "model_mismatches": len(mismatch), "spec_failures_on_impl": len(spec_fail),
+        "translated_source_mismatches": len(src_mismatch), "spec_failures_on_translated_source": len(src_spec_fail),
         "known_finding_probes_reproduced": sorted(seen_keys),
         "translator": res.get("tr_log", ""),
     }
